@@ -74,7 +74,7 @@ def step (page : Nat) (ws : List String) : Nat × String :=
     | some la, some lb, some d =>
       let a := pat la
       let b := (pat lb).mapIdx (fun i x => if (i : Int) = d then x ^^^ 1 else x)
-      let r := fileEquals (some a) (some (if same == "1" then a else b)) (same == "1") page (alloc != "fail")
+      let r := fileEquals (some a) (some (if same == "1" then a else b)) (same == "1") page (alloc == "ok")
       (page, s!"eq={if r then 1 else 0} sym={if r then 1 else 0} fds=1")
     | _, _, _ => (page, "bad-op")
   | ["feqmissing"] =>
